@@ -486,7 +486,7 @@ impl<C: Cfg> World<C> {
             self.fail(MON_OWN | MON_VALID, format!("{}:registry", ctx), format!("after {}: {}", ctx, f));
             return;
         }
-        if C::T::TRACKED {
+        if C::T::COUNTS_CLONES {
             let cc = reg(|r| r.clone_calls);
             if cc != self.expect_clones {
                 self.fail(MON_CLONE, format!("{}:clone-calls", ctx), format!("after {}: element Clone ran {} times in total, expected {}", ctx, cc, self.expect_clones));
